@@ -1,2 +1,130 @@
-(* placeholder until the proofs land *)
-From Sccache Require Import Model.Scheduler.
+(* Properties/C18.v — pinned statements for C18: "Scheduler job bookkeeping stays consistent under every
+   message interleaving".  `run true init ms` is the state of the scheduler (code with the fix: commit) after
+   the message sequence ms — ANY list of the lock-delimited handler pieces of Model/Scheduler.v, no bound on
+   its length, on the number of servers, jobs, or calls inside their unlocked window.  Time-outs excluded. *)
+From Coq Require Import List NArith Bool.
+From Sccache Require Import Base.Sx Gen.C18Consts Model.Scheduler Proofs.Scheduler.
+Import ListNotations.
+Local Open Scope N_scope.
+
+(* the constants and the transition table read from the Rust source are the ones the property names *)
+Theorem C18_consts_ok :
+  transitions = [(Pending, Ready); (Ready, Started); (Started, Complete)] /\
+  max_per_core_load = 2 /\ slack_add = 1 /\ slack_div = 8.
+Proof. exact consts_ok. Qed.
+Print Assumptions C18_consts_ok.
+
+(* every live job belongs to exactly one registered server, whose jobs_assigned holds it *)
+Theorem C18_attribution : forall (ms : list msg) (j sid : N) (stt : jstate),
+  aget j (jobs (run true init ms)) = Some (sid, stt) ->
+  (exists sv, aget sid (servers (run true init ms)) = Some sv /\ In j (sv_assigned sv)) /\
+  (forall sid' sv', aget sid' (servers (run true init ms)) = Some sv' -> In j (sv_assigned sv') -> sid' = sid).
+Proof. intros ms j sid stt. apply attribution_Inv, reachable_Inv. Qed.
+Print Assumptions C18_attribution.
+
+(* a server never has more jobs than cores + 1 + cores/8 (which is at most 2 per core): neither in its
+   jobs_assigned (a duplicate-free set) nor counted over the live jobs attributed to it *)
+Theorem C18_capacity : forall (ms : list msg) (sid : N) (sv : server),
+  aget sid (servers (run true init ms)) = Some sv ->
+  1 <= sv_cpus sv /\ NoDup (sv_assigned sv) /\
+  len (sv_assigned sv) <= sv_cpus sv + 1 + sv_cpus sv / 8 /\
+  len (live_on sid (run true init ms)) <= sv_cpus sv + 1 + sv_cpus sv / 8 /\
+  sv_cpus sv + 1 + sv_cpus sv / 8 <= 2 * sv_cpus sv.
+Proof. intros ms sid sv. apply capacity_Inv, reachable_Inv. Qed.
+Print Assumptions C18_capacity.
+
+(* a recorded job changes only along pending -> ready -> started -> complete and only by an update from its
+   owner; it disappears only by completing on its owner or when its owner re-registers with a new nonce; it
+   appears only when the assignment call that reserved it for that server returns successfully *)
+Theorem C18_transitions : forall (ms : list msg) (m : msg) (j : N),
+  match aget j (jobs (run true init ms)), aget j (jobs (fst (step true (run true init ms) m))) with
+  | Some (sid, a), Some (sid', b) =>
+      sid' = sid /\ (b = a \/ (m = MUpdate j sid b /\ next_state a = Some b))
+  | Some (sid, a), None =>
+      (m = MUpdate j sid Complete /\ a = Started) \/
+      (exists n c tf, m = MHeartbeat sid n c tf /\ snd (step true (run true init ms) m) = OHb true)
+  | None, Some (sid, b) => m = MAllocEndOk j b /\ aget j (inflight (run true init ms)) = Some sid
+  | None, None => True
+  end.
+Proof. intros ms m j. apply transitions_Inv, reachable_Inv. Qed.
+Print Assumptions C18_transitions.
+
+(* an update is accepted exactly when it is the next step of the chain and comes from the owner;
+   a refused update changes nothing *)
+Theorem C18_update_result : forall (ms : list msg) (j sid : N) (b : jstate),
+  (snd (step true (run true init ms) (MUpdate j sid b)) = OUpd UOk <->
+     exists a, aget j (jobs (run true init ms)) = Some (sid, a) /\ next_state a = Some b) /\
+  (snd (step true (run true init ms) (MUpdate j sid b)) <> OUpd UOk ->
+     fst (step true (run true init ms) (MUpdate j sid b)) = run true init ms).
+Proof. intros ms j sid b. apply update_result_Inv, reachable_Inv. Qed.
+Print Assumptions C18_update_result.
+
+(* status reports exactly the number of live jobs (each recorded once) and changes nothing *)
+Theorem C18_in_progress : forall (ms : list msg),
+  step true (run true init ms) MStatus =
+    (run true init ms,
+     OStatus (len (servers (run true init ms))) (sum_cpus (servers (run true init ms))) (len (jobs (run true init ms)))) /\
+  NoDup (keys (jobs (run true init ms))).
+Proof. intros ms. apply status_Inv_out, reachable_Inv. Qed.
+Print Assumptions C18_in_progress.
+
+(* no message sequence makes a handler panic, and no mutex is ever poisoned (the scheduler keeps serving) *)
+Theorem C18_never_panics : forall (ms : list msg) (m : msg),
+  snd (step true (run true init ms) m) <> OPanic /\
+  pois_jobs (run true init ms) = false /\ pois_servers (run true init ms) = false.
+Proof.
+  intros ms m. pose proof (reachable_Inv ms) as I.
+  split; [apply no_panic; exact I|]. split; [apply (inv_pj _ I) | apply (inv_ps _ I)].
+Qed.
+Print Assumptions C18_never_panics.
+
+(* no reservation leaks: every id in a server's jobs_assigned is a live job of that server or belongs to a
+   call of handle_alloc_job still inside its window for that server (so capacity is never used up by ghosts
+   and the server keeps being offered work) *)
+Theorem C18_no_leak : forall (ms : list msg) (sid : N) (sv : server) (j : N),
+  aget sid (servers (run true init ms)) = Some sv -> In j (sv_assigned sv) ->
+  (exists stt, aget j (jobs (run true init ms)) = Some (sid, stt)) \/
+  aget j (inflight (run true init ms)) = Some sid.
+Proof. intros ms sid sv j. apply noleak_Inv, reachable_Inv. Qed.
+Print Assumptions C18_no_leak.
+
+(* the code BEFORE the fixes (fx = false) violates attribution, never-panics and capacity: defect S8 *)
+Theorem C18_unfixed_refuted :
+  (let s := run false init s8_history in
+     (exists sv, aget 0 (jobs s) = Some (0, Started) /\ aget 0 (servers s) = Some sv /\ sv_assigned sv = []) /\
+     snd (step false s (MUpdate 0 0 Complete)) = OPanic /\
+     (let s' := fst (step false s (MUpdate 0 0 Complete)) in
+        snd (step false s' MStatus) = OPanic /\ snd (step false s' (MHeartbeat 0 2 1 false)) = OPanic /\
+        snd (step false s' (MAllocBegin [])) = OPanic)) /\
+  (let s := run false init s8_overload in
+     exists sv, aget 0 (servers s) = Some sv /\ sv_cpus sv = 1 /\ len (live_on 0 s) = 5).
+Proof. exact unfixed_refuted. Qed.
+Print Assumptions C18_unfixed_refuted.
+
+(* the code before the second fix leaked the reservation when the job token could not be created: defect S21 *)
+Theorem C18_unfixed_leak_refuted :
+  let s := run false init s21_history in
+  (exists sv, aget 0 (servers s) = Some sv /\ sv_assigned sv = [0; 1]) /\ jobs s = [] /\ inflight s = [] /\
+  snd (step false s (MAllocBegin [])) = OAllocNoCap 1.
+Proof. exact unfixed_leak_refuted. Qed.
+Print Assumptions C18_unfixed_leak_refuted.
+
+(* non-vacuity *)
+Example C18_fixed_on_s21 :
+  let s := run true init s21_history in
+  (exists sv, aget 0 (servers s) = Some sv /\ sv_assigned sv = []) /\
+  snd (step true s (MAllocBegin [])) = OAllocTokErr.
+Proof. exact fixed_s21. Qed.
+
+Example C18_fixed_on_s8 :
+  snd (step true (run true init [MHeartbeat 0 1 1 false; MAllocBegin []; MHeartbeat 0 2 1 false]) (MAllocEndOk 0 Ready))
+    = OAllocGone 0 0 /\
+  jobs (run true init s8_history) = [] /\ jobs (run true init s8_overload) = [].
+Proof. exact fixed_s8. Qed.
+
+Example C18_nonvacuous :
+  let s := run true init [MHeartbeat 0 1 1 false; MAllocBegin []; MAllocEndOk 0 Ready; MAllocBegin []] in
+  jobs s = [(0, (0, Ready))] /\ inflight s = [(1, 0)] /\
+  (exists sv, aget 0 (servers s) = Some sv /\ len (sv_assigned sv) = capacity (sv_cpus sv)) /\
+  snd (step true s (MAllocBegin [])) = OAllocNoCap 1.
+Proof. exact nonvacuous. Qed.
